@@ -52,6 +52,14 @@ pub fn default_exclude(p: &Node) -> Option<&'static str> {
 pub fn no_static_known(_: &Node) -> Option<&'static str> {
     None
 }
+/// finding FY by its static class (see `Node::has_common_prefix_alt`)
+pub fn fy_known(p: &Node) -> Option<&'static str> {
+    if p.has_common_prefix_alt() {
+        Some("FY")
+    } else {
+        None
+    }
+}
 
 fn out_of(g: &Got<Option<refm::Caps>>) -> Option<Out> {
     match g {
@@ -316,7 +324,6 @@ pub struct PairItem {
 }
 
 pub fn run_items(ctx: &Ctx, prop: &str, items: &[PairItem], groups: bool, budget: u64) -> Acc {
-    let _ = ctx;
     par_run(items, true, Some(20_000_000), |_, it, acc| {
         let (p, texts) = (&it.pattern, &it.texts);
         refm::F1_COMPAT.with(|c| c.set(false));
@@ -365,6 +372,10 @@ pub fn run_items(ctx: &Ctx, prop: &str, items: &[PairItem], groups: bool, budget
                 };
                 let span_differs = span(&g) != span(&want);
                 if (!groups && span_differs) || (groups && !span_differs && g != want) {
+                    if p.has_common_prefix_alt() && ctx.known.listed(prop, "FY") {
+                        acc.known_hit("FY", || format!("{} on {:?}@{}: {} (reference: {})", s, t, from, show_out(&g), show_out(&want)));
+                        continue;
+                    }
                     acc.violate(Violation::new(prop, if groups { "groups" } else { "span" }, &s, t, from, "captures_from_pos", show_out(&want), show_out(&g)));
                 }
                 acc.count("pairs:compared");
